@@ -39,5 +39,5 @@ CONF = dict(
  'and reproduced by the model. ReadData ignores the announced body length of NextProto/Algorithm/Port/Error records and reads 2 bytes: non-canonical bodies desynchronise the stream (model agrees).'),
     timeout_quick=900,
     timeout_thorough=3000,
-    min_cases={'ck.crypt': 90, 'ck.dec': 360, 'ck.enc': 1005, 'csptp.hist': 225, 'csptp.msg.dec': 360, 'csptp.msg.enc': 2652, 'csptp.req.dec': 360, 'csptp.req.enc': 1275, 'csptp.resp.dec': 360, 'csptp.resp.enc': 3566, 'ke.records': 556, 'ke.stream': 150, 'ntp.dec': 526, 'ntp.enc': 2588, 'ntp.hist': 90, 'ntp.set': 3916, 'nts.dec': 450, 'nts.enc': 462, 'nts.resp': 225, 'nts.pos': 225},
+    min_cases={'ck.crypt': 90, 'ck.dec': 360, 'ck.enc': 1005, 'csptp.hist': 225, 'csptp.msg.dec': 360, 'csptp.msg.enc': 2652, 'csptp.req.dec': 360, 'csptp.req.enc': 1275, 'csptp.resp.dec': 360, 'csptp.resp.enc': 3566, 'ke.records': 556, 'ke.stream': 150, 'ntp.dec': 526, 'ntp.enc': 2588, 'ntp.hist': 90, 'ntp.set': 3916, 'nts.dec': 450, 'nts.enc': 462, 'nts.resp': 225, 'nts.pos': 225, 'nts.req': 150},
 )
